@@ -1174,10 +1174,25 @@ func (m *membersPool) Set(member Member) (added bool) {
 }
 
 func (m *membersPool) Remove(k *net.UDPAddr) (bool, error) {
-	return m.addrs.Remove(memberid(k), func(i Member, found bool) error {
-		if found {
-			_ = m.members.RemoveValue(i.Address().String())
+	id := memberid(k)
+
+	return m.addrs.Remove(id, func(i Member, found bool) error {
+		if !found {
+			return nil
 		}
+
+		// NOTE only the member of the addr leaves; the other members of the
+		// same node remain.
+		_, _, _, _ = m.members.SetOrRemove(
+			i.Address().String(),
+			func(members []Member, _ bool) ([]Member, bool, error) {
+				nmembers := util.FilterSlice(members, func(n Member) bool {
+					return memberid(n.Addr()) != id
+				})
+
+				return nmembers, len(nmembers) < 1, nil
+			},
+		)
 
 		return nil
 	})
